@@ -692,7 +692,7 @@ func main() {
 		}
 	}
 	if *modFlag == "" {
-		gomod := fmt.Sprintf("module %s\n\ngo 1.26\n\nrequire (\n\tgithub.com/lesismal/llib v1.2.4\n\tverif v0.0.0\n)\n\nreplace verif => %s\n", modPath, *verif)
+		gomod := fmt.Sprintf("module %s\n\ngo 1.21\n\nrequire (\n\tgithub.com/lesismal/llib v1.2.4\n\tverif v0.0.0\n)\n\nreplace verif => %s\n", modPath, *verif)
 		if err := os.WriteFile(filepath.Join(*out, "go.mod"), []byte(gomod), 0o644); err != nil {
 			fatal("%v", err)
 		}
